@@ -7,7 +7,7 @@ from checks import c02
 LEVEL = "model_checking"
 MANIFEST = dict(
     text="The lambda shapes of StmtShapes.tla (closure scalar / list for IN / column / table / finished SQL expression / multi-step lambda_stmt / lambda criteria inside a "
-         "plain select / with_loader_criteria lambda) with closure valuations incl. None, the empty list, a second column and a second table: the "
+         "plain select / with_loader_criteria lambda) with closure valuations incl. None, the empty list, a second column and a second table; chains of 3 and 4 linked lambdas whose FIRST link holds the structural closure value: the "
          "meaning F is that of the statement built directly from the current values; the cache key contains the non-literal closure values. "
          "StmtCache.tla is checked over groups of lambda shapes sharing an LRU cache of capacity 2 (Transparent, NoStaleValues, KeysSound, ...). "
          "Binding: every lambda shape x 4 valuations is invoked with fresh lambda-analysis state and compared with the specification and with "
@@ -19,7 +19,8 @@ MANIFEST = dict(
     note="trusted: TLC, SQLite, checks/stmt_common.py (each lambda lives at one source location, closure values arrive as function "
          "arguments); lambda analysis state (AnalyzedCode._fns, _closure_per_cache_key) is reset at the start of every walk = a fresh process",
     technique="TLA+ specs (StmtShapes.tla, StmtCache.tla) + TLC exhaustive over the cache graph; spec->code: shape table + replay of every edge")
-LAM = ["lscalar", "llist", "lcol", "ltab", "lmulti", "lwhere", "lcrit", "lexpr"]
+LAM = ["lscalar", "llist", "lcol", "ltab", "lmulti", "lwhere", "lcrit", "lexpr", "lchain3", "lchain4"]
+NONE_SENSITIVE = ("lscalar", "lcol", "ltab", "lmulti", "lcrit", "lchain3", "lchain4")     # compare a column with the closure scalar INSIDE the lambda
 
 
 def name(c):
@@ -33,13 +34,13 @@ def main(chk):
     rt, table_i, vals, tc_i, tm = c02.table_phase(chk, ["lam"], 4, ["none"], lam_none_bind=False, tag="-ideal")
     for m in tm:
         sh = m["shape"].split("|")[2]
-        a_none = vals[m["p"] - 1]["a"] == 0 and sh in ("lscalar", "lcol", "ltab", "lmulti", "lcrit")
+        a_none = vals[m["p"] - 1]["a"] == 0 and sh in NONE_SENSITIVE
         chk.violation({"spec": "StmtShapes", "action": "Invoke", "kind": "lambda-vs-plain", "lambda": sh, "p": m["p"], "closure_scalar_none": a_none,
                        "field": m["field"]},
                       "lambda statement %s with closure values V%d %s: %s" % (sh, m["p"], vals[m["p"] - 1], m["text"]), m)
     # 2. the mechanism: if the code shows the named deviation (None closure scalar bound as NULL), the graphs are checked against the
     #    specification WITH the deviation (it must then conform exactly); otherwise against the ideal
-    dev = any(vals[m["p"] - 1]["a"] == 0 and m["shape"].split("|")[2] in ("lscalar", "lcol", "ltab", "lmulti", "lcrit") for m in tm)
+    dev = any(vals[m["p"] - 1]["a"] == 0 and m["shape"].split("|")[2] in NONE_SENSITIVE for m in tm)
     if dev:
         rd, table, vals, tc, tm2 = c02.table_phase(chk, ["lam"], 4, ["none"], lam_none_bind=True, tag="-dev")
         for m in tm2:
@@ -56,9 +57,10 @@ def main(chk):
                                graph_phase="skipped: the shape table already shows violations"), assumptions=[])
     # 3. invocation sequences over a shared cache
     depth = 5 if chk.quick else 6
-    groups = [[name(c) for c in g] for g in (["lscalar", "llist", "lcol", "ltab"], ["lmulti", "lwhere", "lcrit", "lexpr"])]
-    n_extra = 2 if chk.quick else 6
-    while len(groups) < 2 + n_extra:
+    groups = [[name(c) for c in g] for g in (["lscalar", "llist", "lcol", "ltab"], ["lmulti", "lwhere", "lcrit", "lexpr"],
+                                                    ["lchain3", "lchain4", "lcol"])]
+    n_extra = 1 if chk.quick else 5
+    while len(groups) < 3 + n_extra:
         g = sorted(rng.sample(LAM, 3 if chk.quick else 4))
         if [name(c) for c in g] not in groups:
             groups.append([name(c) for c in g])
